@@ -298,7 +298,7 @@ func c12Compare(old, rec *world.Snap, m *world.ShimModel, label string) []mc.Vio
 }
 
 func init() {
-	for _, base := range []string{"cap-basic-fair", "gang-Soft", "qmax-dynamic", "ugm-sched-2", "maxapps"} {
+	for _, base := range []string{"cap-basic-fair", "gang-Soft", "qmax-dynamic", "ugm-sched-2", "maxapps", "acct-bind"} {
 		def := mc.Scenarios[base]
 		if def == nil {
 			panic("c12: unknown base scenario " + base)
@@ -309,9 +309,9 @@ func init() {
 	}
 	registerCheck(&CheckDef{Prop: "C12", Level: "model_checking", Technique: "crash-point enumeration on top of the explicit-state search: every explored state of the real core is a crash point; the shim's knowledge is replayed into a new real core in bounded-many orders and the ledgers of the two cores are compared",
 		Quick: []Run{{Scenario: "recover-cap-basic-fair", Depth: 5, MapModes: []int{1}, ExtraDepth: 5}, {Scenario: "recover-gang-Soft", Depth: 5, MapModes: []int{1}, ExtraDepth: 5},
-			{Scenario: "recover-qmax-dynamic", Depth: 4, MapModes: []int{1}, ExtraDepth: 4}, {Scenario: "recover-ugm-sched-2", Depth: 4, MapModes: []int{1}, ExtraDepth: 4}, {Scenario: "recover-maxapps", Depth: 4, MapModes: []int{1}, ExtraDepth: 4}},
+			{Scenario: "recover-qmax-dynamic", Depth: 4, MapModes: []int{1}, ExtraDepth: 4}, {Scenario: "recover-ugm-sched-2", Depth: 4, MapModes: []int{1}, ExtraDepth: 4}, {Scenario: "recover-maxapps", Depth: 4, MapModes: []int{1}, ExtraDepth: 4}, {Scenario: "recover-acct-bind", Depth: 5, MapModes: []int{1}, ExtraDepth: 5}},
 		Thorough: []Run{{Scenario: "recover-cap-basic-fair", Depth: 8, MapModes: []int{1}, ExtraDepth: 8}, {Scenario: "recover-gang-Soft", Depth: 8, MapModes: []int{1}, ExtraDepth: 8},
-			{Scenario: "recover-qmax-dynamic", Depth: 6, MapModes: []int{1}, ExtraDepth: 6}, {Scenario: "recover-ugm-sched-2", Depth: 6, MapModes: []int{1}, ExtraDepth: 6}, {Scenario: "recover-maxapps", Depth: 6, MapModes: []int{1}, ExtraDepth: 6}},
+			{Scenario: "recover-qmax-dynamic", Depth: 6, MapModes: []int{1}, ExtraDepth: 6}, {Scenario: "recover-ugm-sched-2", Depth: 6, MapModes: []int{1}, ExtraDepth: 6}, {Scenario: "recover-maxapps", Depth: 6, MapModes: []int{1}, ExtraDepth: 6}, {Scenario: "recover-acct-bind", Depth: 7, MapModes: []int{1}, ExtraDepth: 7}},
 		QuickBudget: 150 * time.Second, ThoroughBudget: 12 * time.Minute,
 		Assumptions: []string{"crash points are the quiescent points between operations (all outbound messages of the last operation delivered); points with a release awaiting confirmation or a placeholder swap in flight are counted and skipped, because the statement compares totals the shim can know",
 			"at most 6 orders of the applications x 6 orders of the allocations per crash point"}})
